@@ -833,7 +833,9 @@ fn gen_lex(r: &mut Rng) -> String {
     }
     s
 }
-const IRI_BASES: &[&str] = &["http://example.org/", "http://example.org/ns#", "https://\u{e9}x.example/\u{65e5}\u{672c}/", "tag:a", "urn:x:y:", "x:", "http://[2001:db8::1]:8080/p/", "http://[::1]:8080/p/", "http://u:p@h.example/", "file:///a/b", "mailto:a@b.c", "http://example.org/?q=\u{e000}&r="];
+const IRI_BASES: &[&str] = &["http://example.org/", "http://example.org/ns#", "https://\u{e9}x.example/\u{65e5}\u{672c}/", "tag:a", "urn:x:y:", "x:", "http://[2001:db8::1]:8080/p/", "http://[::1]:8080/p/", "http://u:p@h.example/", "file:///a/b", "mailto:a@b.c", "http://example.org/?q=\u{e000}&r=",
+    // every character RFC 3986 allows in a scheme: ALPHA *( ALPHA / DIGIT / "+" / "-" / "." )
+    "iris.beep://h.example/", "coap+tcp://h.example/s/", "z39.50r://h.example/db?", "a1+b-c.d:x/", "X-y.Z:"];
 const IRI_PARTS: &[&str] = &["a", "B", "0", "%20", "%C3%A9", "\u{e9}", "\u{10000}", "\u{efffd}", "-", ".", "_", "~", "!", "$", "&", "'", "(", ")", "*", "+", ",", ";", "=", ":", "@", "/", "?k=v", "#f", "..", "//"];
 // ---- independent RFC 3987 check (absolute IRI with optional fragment), from the ABNF ----
 fn ucschar(c: char) -> bool { let u = c as u32; matches!(u, 0xA0..=0xD7FF | 0xF900..=0xFDCF | 0xFDF0..=0xFFEF) || ((0x10000..=0xEFFFD).contains(&u) && (u & 0xFFFF) <= 0xFFFD && !(0xE0000..=0xE0FFF).contains(&u)) }
@@ -1200,7 +1202,15 @@ directed next to the random stream: one case in 81 is a bulk dataset (30..700 st
             Err(e) => {
                 fails.push(format!("writing by [{}] fails on an in-memory target: {e}", WRITE_WAYS[way]));
                 way = 0;
-                writer(0).unwrap().unwrap_or_else(|e| panic!("case {idx}: the serialiser failed on an in-memory target ({}): {e}", WRITE_WAYS[0]))
+                match writer(0).unwrap() {
+                    Ok(b) => b,
+                    Err(e) => {
+                        // no way of writing works: the failure itself is the finding (the case cannot go on without a text)
+                        sum.oracle_failures.push((idx.to_string(), format!("the serialiser fails on an in-memory target for the statements {:?} ({}): {e}", quads.iter().take(6).collect::<Vec<_>>(), WRITE_WAYS[0])));
+                        for f in fails.drain(..) { sum.oracle_failures.push((idx.to_string(), f)); }
+                        continue;
+                    }
+                }
             }
         };
         let text = String::from_utf8_lossy(&bytes).to_string();
